@@ -453,6 +453,21 @@ public:
       rvalue_origin_[i.id] = _name;
   }
 
+  // elements of an rvalue argument that the operation cannot avoid copying (const keys of node-based maps, elements
+  // of sets reached through const iterators): still expected in the result, copies are not held against the library
+  void tolerate_copies(std::vector<int> const &_ids)
+  {
+    for (int i : _ids)
+    {
+      auto const it = rvalue_origin_.find(i);
+      if (it != rvalue_origin_.end())
+      {
+        lvalue_origin_[i] = it->second + " (copy tolerated)";
+        rvalue_origin_.erase(it);
+      }
+    }
+  }
+
   void arm()
   {
     first_fresh_id_ = L().next_id;
@@ -652,6 +667,8 @@ void register_record_tuple_shards();
 void register_array_shards();
 void register_options_shards();
 void register_parse_shards();
+void register_nested_shards();
+void register_assoc_shards();
 }
 
 namespace std
